@@ -315,11 +315,15 @@ type Runner struct {
 	txOwner    map[string]uint32    // transaction id -> lowest height of a chain block containing it
 	fails      []corr.Fail
 	sharedLost bool // a deletion removed a transaction an older block also contains
+	poisoned   bool // a start with a foreign genesis block rewrote the database: what follows is not judged any more
 	op         int
 	Notes      map[string]int
 }
 
 func (r *Runner) fail(sig, detail string) {
+	if r.poisoned {
+		return
+	}
 	if len(detail) > 600 {
 		detail = detail[:600] + "..."
 	}
@@ -343,6 +347,7 @@ func (r *Runner) reset(a map[string]string) string {
 	r.prev, r.fin, r.finalIDs, r.stack = nil, 0, map[uint32][]byte{}, nil
 	r.after, r.txOwner = map[string][]node.KV{}, map[string]uint32{}
 	r.sharedLost = false
+	r.poisoned = false
 	keep := atoi(a["keep"])
 	cfg := node.Config{
 		NumValidators:        atoi(a["nv"]),
@@ -897,6 +902,8 @@ func (r *Runner) step(op string) string {
 			r.fail("c04-restart-changed-state", fmt.Sprintf("tip after restart %x, before %x", []byte(n.Tip().Header.ID), tipID))
 		}
 		return r.state(res, evs)
+	case "restartg":
+		return r.startInputs(a)
 	case "sctx":
 		return r.syncContext()
 	case "cleartemp":
@@ -919,6 +926,128 @@ func (r *Runner) step(op string) string {
 		return r.twin()
 	}
 	return "bad-op"
+}
+
+// startInputs runs `restartg`: the node is started again on its database (new Chain / Executer / Connection,
+// Executer.Init) with WRONG or CHANGED start-up inputs.
+//
+//	v=genesis kind=<id|inside|tip|above|below> abi=<keep|fresh> gh=<height> gts=<timestamp> gid=<id>
+//	    another genesis block than the one the database was built from (same validators; other timestamp, and
+//	    for the kinds other than `id` another height: inside the stored chain, at its tip, above it, below the
+//	    stored genesis block). abi=fresh: the application starts from an empty state (it accepts the foreign
+//	    genesis block), abi=keep: the application keeps the state of the stored chain. The start must be
+//	    REFUSED and must not write: a byte-exact dump of the database before == after
+//	    (c04-foreign-genesis-accepted / c04-foreign-genesis-wrote, suffix :stored-height when the database
+//	    holds a block at the height of the foreign genesis block, :unstored-height otherwise). The inputs of
+//	    the node are restored afterwards; the recorder follows with a plain `restart`.
+//	v=cfg cache=<n> keep=<k>
+//	    MaxBlockCache / KeepEventsForHeights changed from now on: the start must succeed, write nothing, load
+//	    the same tip; every finalized height stays served (the per-step oracles of state()).
+//	v=chainid cid=<hex>
+//	    another chain id (not stored in the database): as v=cfg; the chain id is restored afterwards.
+func (r *Runner) startInputs(a map[string]string) string {
+	n := r.n
+	before := n.DumpDB()
+	var tipID []byte
+	if t := n.Tip(); t != nil {
+		tipID = append([]byte{}, t.Header.ID...)
+	}
+	switch a["v"] {
+	case "genesis":
+		gh, gts := uint32(atou(a["gh"])), uint32(atou(a["gts"]))
+		g, err := n.ForeignGenesis(gh, gts)
+		if err != nil || hx(g.Header.ID) != a["gid"] {
+			return "genesis-mismatch"
+		}
+		if bytes.Equal(g.Header.ID, n.Genesis.Header.ID) {
+			return "bad-op"
+		}
+		class := "unstored-height"
+		if _, ok := n.DB.Get(key32(4, gh)); ok {
+			class = "stored-height"
+		}
+		finBefore := n.Finalized()
+		gen, cfg, abi := n.Genesis, n.Cfg, n.ABI
+		err = n.RestartWith(node.StartInputs{Genesis: g, FreshABI: a["abi"] == "fresh"})
+		evs := n.DrainEvents()
+		n.Genesis, n.Cfg, n.ABI = gen, cfg, abi
+		what := fmt.Sprintf("start with a foreign genesis block (kind=%s height=%d id=%s, genesis of the stored chain: height %d; application state: %s) on a database with tip height %d and finalized height %d",
+			a["kind"], gh, short(g.Header.ID), cfg.GenesisHeight, a["abi"], heightOfTip(before), finBefore)
+		res := "err"
+		var sig, detail string
+		if err == nil {
+			res = "ok"
+			sig, detail = "c04-foreign-genesis-accepted:"+class, what+": Init succeeded"
+		}
+		if d := node.DiffDumps(before, n.DumpDB()); len(d) != 0 {
+			finAfter := "unreadable"
+			func() {
+				defer func() { _ = recover() }()
+				finAfter = strconv.Itoa(int(n.Finalized()))
+			}()
+			if len(d) > 6 {
+				d = append(d[:6], fmt.Sprintf("... %d more", len(d)-6))
+			}
+			for i := range d {
+				if len(d[i]) > 90 {
+					d[i] = d[i][:90] + "..."
+				}
+			}
+			sig = "c04-foreign-genesis-wrote:" + class
+			detail = fmt.Sprintf("%s: Init returned %v and changed the database: stored finalized height %d -> %s; %s", what, err, finBefore, finAfter, strings.Join(d, "; "))
+		}
+		if sig != "" {
+			r.fail(sig, detail)
+			// the database is no longer the one the history built: nothing after this is judged
+			r.poisoned = true
+			r.stack = nil
+		}
+		return r.state(res, evs)
+	case "cfg", "chainid":
+		in := node.StartInputs{}
+		cfg := n.Cfg
+		if a["v"] == "cfg" {
+			keep := atoi(a["keep"])
+			in.MaxBlockCache, in.KeepEventsForHeights = atoi(a["cache"]), &keep
+			if in.MaxBlockCache < 1 {
+				return "bad-op"
+			}
+		} else {
+			cid, err := unhexSafe(a["cid"])
+			if err != nil || len(cid) == 0 {
+				return "bad-op"
+			}
+			in.ChainID = cid
+		}
+		err := n.RestartWith(in)
+		evs := n.DrainEvents()
+		if a["v"] == "chainid" {
+			n.Cfg.ChainID = cfg.ChainID
+		}
+		if err != nil {
+			r.fail("c04-restart-failed", fmt.Sprintf("restart with changed inputs (%s cache=%s keep=%s): %v", a["v"], a["cache"], a["keep"], err))
+			return r.state("err", evs)
+		}
+		if d := Delta(before, n.DumpDB()); d != "-" {
+			r.fail("c04-restart-changed-state", fmt.Sprintf("database after a restart with changed inputs (%s cache=%s keep=%s): %s", a["v"], a["cache"], a["keep"], d))
+		}
+		if tipID != nil && (n.Tip() == nil || !bytes.Equal(n.Tip().Header.ID, tipID)) {
+			r.fail("c04-restart-changed-state", fmt.Sprintf("tip after a restart with changed inputs (%s cache=%s keep=%s) differs from the tip before (%x)", a["v"], a["cache"], a["keep"], tipID))
+		}
+		return r.state("ok", evs)
+	}
+	return "bad-op"
+}
+
+// heightOfTip: the largest height of the height->id index of a dump.
+func heightOfTip(dump []node.KV) uint32 {
+	var h uint32
+	for _, kv := range dump {
+		if len(kv.Key) == 5 && kv.Key[0] == 4 {
+			h = be32(kv.Key[1:])
+		}
+	}
+	return h
 }
 
 // syncContext runs Executer.createSyncContext (what Executer.process hands to the synchronisers when a
